@@ -715,11 +715,12 @@ fn parse_json_filter(input: &[u8], output: &mut [u8]) -> Result<(usize, usize), 
     let mut start_ids: Option<usize> = None;
     let mut start_authors: Option<usize> = None;
     let mut start_kinds: Option<usize> = None;
-    // Allowing up to 32 tag filter fields (plenty!)
+    // One slot per possible tag letter (A-Z, a-z): a filter may constrain
+    // every single-letter tag, and a repeated letter is refused below
     // (we are not differentiating letters yet, just collecting offsets)
     // (we make the array to avoid allocation)
     let mut num_tag_fields = 0;
-    let mut start_tags: [usize; 32] = [usize::MAX; 32];
+    let mut start_tags: [usize; 52] = [usize::MAX; 52];
 
     eat_whitespace(input, &mut inpos);
     verify_char(input, b'{', &mut inpos)?;
